@@ -441,8 +441,8 @@ theorem fieldCmds_ok (n : Nat) {f f' : FieldD} (h : fieldOk f f') (hu : f.unloc)
   -- the options
   have hflag0 : ∀ p ∈ f.popts, p.inlineWithParent = true :=
     popts_flag f (fun o ho => SOpt.inl_unloc (hu.2 o ho))
-  rw [← fieldStyle_strip n f.head (toString f.number) "" f'.popts, hstrip,
-    fieldStyle_strip n f.head (toString f.number) "" f.popts]
+  rw [← fieldStyle_strip n f.head (Scalar.formatInt f.number) "" f'.popts, hstrip,
+    fieldStyle_strip n f.head (Scalar.formatInt f.number) "" f.popts]
   · intro p hp _; exact hflag0 p (by rw [hp]; simp)
   · intro p' hp' hne
     have hlen : f.popts.length = 1 := by
